@@ -8,7 +8,7 @@
 
    Model: model/PoolModel.v (one step = one Go statement of pool/task_pool.go).  Theorems quantify over
    every event list the semantics accepts and over ALL parameter records (no validity hypothesis is
-   needed for the ledger; both fix flags).  History lists of the model (ghost state, written only by the
+   needed for the ledger; all values of the three fix flags).  History lists of the model (ghost state, written only by the
    steps named here):
      g_sent      task ids whose `b.queue <- task` was executed (trySubmit's select)
      g_acc/g_rej task ids whose Submit returned nil / an error     (theorem submit_result_recorded)
@@ -17,7 +17,7 @@
      g_returned  task ids in the slice a ShutdownNow call returned
    A task id is given to exactly one Submit call (the invocation event requires id = c_ntask). *)
 From Ekit Require Import Common Conc PoolModel PoolProof PoolProof2 PoolProof3 PoolProof4 PoolProof5 PoolProof6
-  PoolExamples.
+  PoolProof7 PoolExamples.
 
 (* never twice: no task id is started twice, sent twice, finished twice or returned twice *)
 Theorem never_twice : forall P evs c, exec pstep_cfg (pinit P) evs = Some c ->
@@ -92,6 +92,41 @@ Theorem panic_is_contained : forall c t th,
 Proof. exact panic_is_contained_lemma. Qed.
 Print Assumptions panic_is_contained.
 
+(* since commit 4ac6152 (flag i_fixc = true: Submit wraps the task once, in front of its spin loop) every queued
+   task and every task inside its user function has exactly ONE taskWrapper layer, in every schedule ... *)
+Theorem wrapper_depth_is_one : forall P, i_fixc P = true ->
+  forall evs c, exec pstep_cfg (pinit P) evs = Some c ->
+  Forall (fun k => tk_depth k = 1%nat) (s_q (c_sh c)) /\
+  (forall t th, lookup t (c_thr c) = Some th -> pc th = WUser -> tk_depth (l_task th) = 1%nat).
+Proof. exact wrapper_depth_one_lemma. Qed.
+Print Assumptions wrapper_depth_is_one.
+
+(* ... so the bound of panic_is_contained is the constant 8 for the code as it is *)
+Theorem panic_is_contained_fixed : forall P, i_fixc P = true ->
+  forall evs c t th, exec pstep_cfg (pinit P) evs = Some c ->
+  lookup t (c_thr c) = Some th -> pc th = WUser ->
+  exists c1, pstep_cfg c (PFinish t) = Some c1 /\
+    g_done (c_gh c1) = g_done (c_gh c) ++ [tk_id (l_task th)] /\
+    exists k c2 th2, exec pstep_cfg c1 (repeat (PStep t C0) k) = Some c2 /\ (k <= 8)%nat /\
+      lookup t (c_thr c2) = Some th2 /\ pc th2 = WRunDec /\ c_sh c2 = c_sh c.
+Proof. exact panic_is_contained_fixed_lemma. Qed.
+Print Assumptions panic_is_contained_fixed.
+
+(* REFUTED on the code before 4ac6152 (i_fixc = false: `task = &taskWrapper{t: task}` inside the loop): the wrapper
+   depth is unbounded.  Valid configuration spin_P (initGo = coreGo = maxGo = 1, unbuffered queue, never
+   started): for EVERY n the schedule spin_schedule n - one Submit going n times round its loop (CAS to locked,
+   select takes default, CAS back, second try fails) - is accepted by the model and leaves the call at the loop
+   head with n taskWrapper layers around its task.  Each layer is a stack frame when the task finally runs: this
+   is why a Submit that waited a few seconds on a full queue crashed the process with a stack overflow. *)
+Theorem submit_wrap_depth_unbounded_refuted :
+  (1 <= i_init spin_P /\ i_init spin_P <= i_core spin_P /\ i_core spin_P <= i_max spin_P /\
+   0 <= i_cap spin_P /\ 0 < i_rd spin_P) /\ i_fixc spin_P = false /\
+  forall n, exists evs c th,
+    exec pstep_cfg (pinit spin_P) evs = Some c /\ lookup 1%nat (c_thr c) = Some th /\
+    pc th = SbChkClosing /\ tk_depth (l_task th) = n /\ s_state (c_sh c) = SCreated.
+Proof. exact submit_wrap_depth_unbounded_lemma. Qed.
+Print Assumptions submit_wrap_depth_unbounded_refuted.
+
 (* the mechanism the property names: Submit only sends while it holds the state word, so in no schedule
    is there a send on the closed channel, nor a second close (no step returns one of the two panics) *)
 Theorem no_send_on_closed_no_double_close : forall P,
@@ -133,3 +168,10 @@ Example handoff_moves_the_task_to_the_worker :
     g_sent (c_gh c) = [0] /\ s_q (c_sh c) = [] /\ tsum (held 0) (c_thr c) = 1%Z /\
     tsum (sentfl 0) (c_thr c) = 1%Z /\ g_acc (c_gh c) = [].
 Proof. eexists. split; [vm_compute; reflexivity|]. vm_compute. repeat split; reflexivity. Qed.
+
+(* the pinned spin: three rounds of the loop, three wrapper layers (42 + 3 events); the same events under the
+   fixed model are rejected at once (the fixed Submit does not go SbNil -> SbFor) *)
+Example three_rounds_three_layers :
+  exists c th, exec pstep_cfg (pinit spin_P) (spin_schedule 3) = Some c /\
+    lookup 1 (c_thr c) = Some th /\ tk_depth (l_task th) = 3 /\ length (spin_schedule 3) = 45.
+Proof. eexists. eexists. split; [vm_compute; reflexivity|]. vm_compute. repeat split; reflexivity. Qed.
